@@ -4,6 +4,7 @@ pub mod c11;
 pub mod c12;
 pub mod c14;
 pub mod c21;
+pub mod c27;
 pub mod c28;
 pub mod c29;
 pub mod c30;
@@ -11,6 +12,7 @@ pub mod c35;
 pub mod c42;
 pub mod dirchecks;
 pub mod replchecks;
+pub mod tokchecks;
 
 pub fn dispatch(id: &str, args: &[String]) -> ! {
     match id {
@@ -28,9 +30,13 @@ pub fn dispatch(id: &str, args: &[String]) -> ! {
         "C21" => c21::run(args),
         "C22" => dirchecks::run("C22", args),
         "C26" => dirchecks::run("C26", args),
+        "C27" => c27::run(args),
         "C28" => c28::run(args),
         "C29" => c29::run(args),
         "C30" => c30::run(args),
+        "C32" => tokchecks::run("C32", args),
+        "C33" => tokchecks::run("C33", args),
+        "C36" => tokchecks::run("C36", args),
         "C35" => c35::run(args),
         _ => {
             eprintln!("MACHINERY-ERROR unknown check {id}");
